@@ -26,6 +26,7 @@ theorem tr_congr (st : Style) (o o' : Opts) (h : o.fieldConstraints = o'.fieldCo
     cases ctx <;> simp [tr, rootCons, h, tr_congr st o o' h _ items]
   | _, .object props req addl => by simp [tr, trProps_congr st o o' h req props]
   | _, .dict value => by simp [tr, tr_congr st o o' h .plain value]
+  | ctx, .ndict _ => by cases ctx <;> simp [tr]
   | ctx, .disc _ _ _ _ => by cases ctx <;> simp [tr]
   | _, .ref _ => by simp [tr]
   | _, .anyOf alts => by simp [tr, trAlts_congr st o o' h alts]
@@ -473,6 +474,25 @@ theorem rc_object (h : TableOK st) (hF : oF.fieldConstraints = true)
   · rw [hnames oF, hnames oC]
     exact compat_refl _
 
+/-- `Optional[Dict[str, Any]]` mentions no definition: its verdict does not depend on the environment -/
+theorem acceptsTy_optDictAny_indep (D D' : IRDefs) (v : Json) :
+    ∀ g, acceptsTy st re g D (.opt (.dict .any)) v = acceptsTy st re g D' (.opt (.dict .any)) v := by
+  have hany : ∀ g (x : Json), acceptsTy st re g D .any x = acceptsTy st re g D' .any x := by
+    intro g x; cases g <;> simp [acceptsTy]
+  have hdict : ∀ g, acceptsTy st re g D (.dict .any) v = acceptsTy st re g D' (.dict .any) v := by
+    intro g
+    cases g with
+    | zero => simp [acceptsTy]
+    | succ g =>
+      cases v <;> simp only [acceptsTy]
+      rename_i kvs
+      congr 1
+      exact List.map_congr_left (fun kv _ => hany g kv.2)
+  intro g
+  cases g with
+  | zero => simp [acceptsTy]
+  | succ g => simp only [acceptsTy, hdict g]
+
 theorem rc_all (h : TableOK st) (hF : oF.fieldConstraints = true) (hC : oC.fieldConstraints = false)
     (hd : defsInSubset defs = true) (hds : defsRoutingSafe defs = true) :
     ∀ g, RCle st re oF oC defs g := by
@@ -511,6 +531,14 @@ theorem rc_all (h : TableOK st) (hF : oF.fieldConstraints = true) (hC : oC.field
           cases value <;> simp [Schema.isDisc] <;> simp [routingSafe] at hs
         simp only [hnd, Bool.false_eq_true, if_false]
         exact compat_all_map kvs _ _ (fun kv _ => ih g (Nat.le_refl _) .plain value kv.2 hsub hs)
+      | ndict value =>
+        cases ctx <;> simp only [tr]
+        · simp only [acceptsTy, acceptsTy_optDictAny_indep st re (trDefs st oF defs) (trDefs st oC defs) v g]
+          exact compat_refl _
+        · rw [acceptsTy_optDictAny_indep st re (trDefs st oF defs) (trDefs st oC defs) v]
+          exact compat_refl _
+        · rw [acceptsTy_optDictAny_indep st re (trDefs st oF defs) (trDefs st oC defs) v]
+          exact compat_refl _
       | ref n =>
         simp only [tr, acceptsTy, lookup_trDefs]
         cases hl : defs.lookup n with
